@@ -116,6 +116,31 @@ TInsertRace ==
          /\ ((\A k \in DOMAIN E.oks : Sh!InsertValid(E.batches[k])) => Len(succ) >= 1)
   /\ VersPush
 
+\* Write requests of any kind issued at the same time on pairwise DISJOINT id sets: whatever order the single
+\* writer lock gives them, each is judged against the state before the race (its ids are touched by nobody else)
+\* and the state after all of them is the state after applying them one after the other.
+RaceOpOK(op) ==
+  CASE op.kind = "insert" -> (op.ok = 1) <=> Sh!InsertValid(op.pts)
+    [] op.kind = "update" -> (op.ok = 1) <=> ~Sh!UpdOversize(pts, op.pts, lim)
+    [] OTHER -> op.ok = 1
+RaceApply(P, op) ==
+  IF op.ok = 0 THEN P
+  ELSE CASE op.kind = "insert" -> [i \in DOMAIN P \cup Sh!BIds(op.pts) |-> IF i \in DOMAIN P THEN P[i] ELSE Sh!DocIn(op.pts, i)]
+         [] op.kind = "update" -> Sh!ApplyUpd(P, op.pts)
+         [] OTHER -> [i \in DOMAIN P \ AsSet(op.ids) |-> P[i]]
+RECURSIVE RaceFold(_, _)
+RaceFold(P, ops) == IF ops = <<>> THEN P ELSE RaceFold(RaceApply(P, Head(ops)), Tail(ops))
+TWriteRace ==
+  /\ IsEvent("WriteRace")
+  /\ fault' = FALSE /\ Env /\ UNCHANGED kf
+  /\ \A k \in DOMAIN E.ops : RaceOpOK(E.ops[k])
+  /\ PNodesFunctional(E.P)
+  /\ pts' = RaceFold(pts, E.ops)
+  /\ Sh!AllocOK(PN(E.P), PF(E.P), E.P.next, DOMAIN pts')
+  /\ nodeOf' = PN(E.P) /\ free' = PF(E.P) /\ next' = E.P.next
+  /\ count' = E.P.count /\ E.P.count = Cardinality(DOMAIN pts')
+  /\ VersPush
+
 TUpdate ==
   /\ IsEvent("Update")
   /\ fault' = FALSE /\ Env
@@ -370,7 +395,7 @@ TErrKnown ==
 TQuiet == IsEvent("Quiet") /\ Obs
 
 TraceNext ==
-  \/ TReset \/ TFault \/ TInsert \/ TInsertRace \/ TUpdate \/ TDelete \/ TFork \/ TRestore \/ TCrash
+  \/ TReset \/ TFault \/ TInsert \/ TInsertRace \/ TWriteRace \/ TUpdate \/ TDelete \/ TFork \/ TRestore \/ TCrash
   \/ TCount \/ TGet \/ TFilter \/ TFlat \/ TVamana \/ TVamanaPair \/ TFlatPair \/ TCSearch \/ TErrKnown \/ TText \/ TTextRepeat \/ TGraph \/ TQuiet
 
 TraceSpec == TraceInit /\ [][TraceNext]_vars
